@@ -156,18 +156,40 @@ def num_parts_exact(size, p):
     return None
 
 
+def part_limits(c):
+    """every part of every multipart upload/copy the run made: non-final parts >= 5 MiB, all parts <= 5 GiB"""
+    MiB = 1024 ** 2
+    for uid, u in c.s3.uploads.items():
+        n = len(u['parts'])
+        for pn, ent in u['parts'].items():
+            ln = 0
+            for b in ent[0]:
+                ln += len(b)
+            if ln > 5 * 1024 * MiB:
+                return 'decision: part above 5 GiB'
+            if pn != n and ln < 5 * MiB:
+                return 'decision: non-final part below 5 MiB'
+    return None
+
+
 def decision(front, size, thr, chunk):
     """C14.4/5: multipart exactly when size >= threshold, ranges / part numbers / offsets tile the object - observed on
     the requests each front end issues (symbolic size / threshold / chunk size, <= 3 parts)"""
     from harness import c01, c02
-    if front == 'upload-path':
-        r = c01.upload('path', 0, False, False, size, thr, chunk, 0, -1)
-    elif front == 'upload-seekable':
-        r = c01.upload('seekable', 0, False, False, size, thr, chunk, 0, -1)
+    from harness import common as H
+    if front in ('upload-path', 'upload-seekable'):
+        kind = front[len('upload-'):]
+        c = H.run_upload(kind, size, thr, chunk, body_reads=[-1] * 8)
+        r = c01._upload_oracle(c, kind, size, thr, 0, size >= thr) or part_limits(c)
     elif front == 'upload-stream':
-        r = c01.upload_stream(False, size, thr, chunk, 0, 0, -1)
+        c = H.run_upload('nonseekable', size, thr, chunk, nd=(0, 0), body_reads=[-1] * 4)
+        r = c01._upload_oracle(c, 'nonseekable', size, thr, 0, size >= thr) or part_limits(c)
+    elif front == 'upload-stream-sized':
+        c = H.run_upload('nonseekable', size, thr, chunk, nd=(0, 0), body_reads=[-1] * 4, known_size=True)
+        r = c01._upload_oracle(c, 'nonseekable', size, thr, 0, size >= thr) or part_limits(c)
     elif front == 'copy':
-        r = c01.copy(False, size, thr, chunk)
+        c = H.run_copy(size, thr, chunk)
+        r = c01._copy_oracle(c, size, thr) or part_limits(c)
     elif front == 'download':
         if size < thr:
             r = c02.download('seekable', 'single', 0, False, size, thr, chunk, chunk, 0, 0, 0, 0)
@@ -224,6 +246,21 @@ OBLIGATIONS = [
          bounds='<= 3 parts; size / threshold symbolic (incl. size == threshold exactly); chunk in [5 MiB, 5 GiB]',
          encodes=['UploadSubmissionTask._submit', 'requires_multipart_upload', 'CopySubmissionTask._submit',
                   'yield_upload_part_bodies', 'CopyPartTask ranges'], assumptions=['S1', 'S2', 'A3', 'A4']),
+    dict(id='C14.4c', impl='decision', params='size: int, thr: int, chunk: int',
+         cases=[('upload-path',), ('upload-stream',), ('upload-stream-sized',), ('copy',)],
+         cases_thorough=[('upload-path',), ('upload-seekable',), ('upload-stream',), ('upload-stream-sized',), ('copy',)],
+         pre=['0 <= size', '1 <= thr', '1 <= chunk <= 8 * 1024 ** 3'],
+         splits=[['chunk < 5 * 1024 ** 2', 'size < thr', 'size <= 15 * 1024 ** 2'],
+                 ['chunk < 5 * 1024 ** 2', 'size >= thr', 'size <= 5 * 1024 ** 2'],
+                 ['chunk < 5 * 1024 ** 2', 'size >= thr', '5 * 1024 ** 2 < size <= 15 * 1024 ** 2'],
+                 ['chunk > 5 * 1024 ** 3', 'size < thr', 'size <= 10 * 1024 ** 3'],
+                 ['chunk > 5 * 1024 ** 3', 'size >= thr', 'size <= 10 * 1024 ** 3']], timeout=(170, 900),
+         bounds='configured chunk size OUTSIDE the S3 limits (1 .. 5 MiB-1 and 5 GiB+1 .. 8 GiB, symbolic): every '
+                'non-final part issued is still >= 5 MiB and every part <= 5 GiB; <= 3 parts; stream uploads with and '
+                'without a size provided by a subscriber',
+         encodes=['UploadSubmissionTask._submit_multipart_request (ChunksizeAdjuster call, size known / unknown)',
+                  'CopySubmissionTask._submit_multipart_request', 'yield_upload_part_bodies', 'CopyPartTask ranges'],
+         assumptions=['S1', 'S2', 'A3', 'A4']),
     dict(id='C14.4d', impl='decision', params='size: int, thr: int, chunk: int',
          cases=[('download',), ('legacy-download',)],
          pre=['0 <= size', '1 <= thr', '1 <= chunk <= 8192', 'size <= 3 * chunk'],
